@@ -88,6 +88,18 @@ int main ()
           catch (std::exception&) { bool moderate = std::fabs (scale) >= 1e-140 && std::fabs (scale) <= 1e140; ok3 = ok3 && (maxpol > 1 || !moderate); }
           g_random.clear(); }
         o << " " << (ok1?1:0) << " " << (ok2?1:0) << " " << (ok3?1:0); }
+      // oracle: the same contract when the scale is passed in another arithmetic type (the template accepts any) and for
+      // single-precision vectors; flags (1 = holds)
+      else if (op == "o.c18.scaletypes") { long scale = std::stol (t[1]); float maxpol = (float) rd (t[2]); std::vector<long> rs; for (size_t i=3;i<t.size();i++) rs.push_back (std::stol (t[i]));
+        auto contract = [&] (auto sc, auto vec, double tol) -> bool { for (long r : rs) g_random.push_back (r);
+          decltype(vec) s; bool ok;
+          try { random_value (s, sc, maxpol); double p = std::sqrt ((double)s[1]*s[1] + (double)s[2]*s[2] + (double)s[3]*s[3]);
+            ok = ((double) s[0] == (double) sc) && p <= (double) maxpol * (double) sc * (1 + tol) && (double)s[0]*s[0] - p*p >= -tol * (double) sc * (double) sc; }
+          catch (std::exception&) { ok = false; }
+          g_random.clear(); return ok; };
+        o << " " << (contract ((int) scale, Stokes<double>(), 1e-12) ? 1 : 0) << " " << (contract ((long) scale, Stokes<double>(), 1e-12) ? 1 : 0)
+          << " " << (contract ((unsigned) scale, Stokes<double>(), 1e-12) ? 1 : 0) << " " << (contract ((float) scale, Stokes<double>(), 1e-6) ? 1 : 0)
+          << " " << (contract ((double) scale, Stokes<float>(), 1e-5) ? 1 : 0) << " " << (contract ((float) scale, Stokes<float>(), 1e-5) ? 1 : 0); }
       else { std::cout << "err unknown-op\n"; continue; }
       if (g_exhausted) throw Exhausted (g_exhausted);
       std::cout << "ok" << o.str() << "\n";
